@@ -725,6 +725,11 @@ fn run_case1(case: &Value, out: &mut dyn Write, forced: Option<(i32, i32, f64)>)
         ev["q"] = json!(q);
         ev["exact"] = json!(exact_c && exact_f);
         ev["comps"] = Value::Array(ac.iter().map(|c| c.to_json(q)).collect());
+        // the demand lines as DECLARED by the case (abstract input, base run only: the transforms of a run do not apply
+        // to them): the demand evaluated must be their step-wise sum per service
+        if let (Some(cs), true) = (case["src"]["comps"].as_array(), run.get("scale").is_none() && run.get("sub").is_none() && run.get("perm").is_none() && run.get("mul").is_none()) {
+            ev["decl_needs"] = Value::Array(cs.iter().map(AbsComp::from_json).filter(|c| c.kind == "NEED").map(|c| c.to_json(q)).collect());
+        }
         ev["fac"] = fj;
         ev["S"] = json!(s.ceil() as i64);
         ev["p"] = json!(p);
@@ -801,7 +806,7 @@ fn run_case1(case: &Value, out: &mut dyn Write, forced: Option<(i32, i32, f64)>)
                     let mut meta: Vec<Value> = ep.components.meta.iter().map(|m| json!([m.key, m.value])).collect();
                     meta.sort_by_key(|m| m.to_string());
                     ev["out"] = json!({"ok": true, "crs": crs, "srvs": srvs, "srcs": srcs, "acs": acs, "misc": misc, "tagged": tagged, "meta": meta,
-                                       "balkeys": balkeys, "m2keys": m2keys, "tkeys": tk, "fkeys": fk, "flat": f.m});
+                                       "balkeys": balkeys, "m2keys": m2keys, "tkeys": tk, "fkeys": fk, "flat": f.m, "m2c": f.cents});
                     if case.get("render").and_then(|x| x.as_bool()).unwrap_or(false) {
                         ev["doc"] = render_docs(&ep, p, pm);
                     }
@@ -1078,7 +1083,7 @@ fn main() {
                             a.sort();
                             srcs.insert(cr.to_string(), json!(a));
                         }
-                        for k in ["kexp", "area", "lm"] {
+                        for k in ["kexp", "area", "lm", "run"] {
                             if let Some(v) = c.get(k) {
                                 ev[k] = v.clone();
                             }
@@ -1087,8 +1092,16 @@ fn main() {
                         let m2keys: Vec<&str> = f.m.keys().filter_map(|k| k.strip_prefix("m2.")).collect();
                         let mut tk: Vec<&String> = f.tkeys.iter().filter(|k| !k.ends_with(".f_match")).collect();
                         tk.sort();
+                        // the DHW renewable fraction of the result the program wrote (a ratio in millionths), as for library events
+                        let acs_cli = match catch_unwind(AssertUnwindSafe(|| cte::fraccion_renovable_acs_nrb(&ep))) {
+                            Ok(Ok(v)) if v.is_finite() => json!({"ok": true, "v": ((v as f64) * 1e6).round().clamp(-2.0e9, 2.0e9) as i64, "nonfinite": false}),
+                            Ok(Ok(_)) => json!({"ok": true, "v": 0, "nonfinite": true}),
+                            Ok(Err(e)) => json!({"ok": false, "err": err_kind(&e)}),
+                            Err(_) => json!({"ok": false, "err": "Panic"}),
+                        };
                         ev["out"] = json!({"ok": true, "fkeys": fk, "flat": f.m, "crs": crs, "srvs": srvs, "srcs": srcs,
                                            "balkeys": balkeys, "m2keys": m2keys, "tkeys": tk});
+                        ev["out"]["acs"] = acs_cli;
                     }
                     (code, _) => {
                         ev["out"] = json!({"ok": false, "stage": "cli", "err": format!("Exit{}", code.unwrap_or(-1))});
